@@ -33,6 +33,7 @@ EXPLANATION = (
   ' (FRESH) a model element pushed inside a loop is constructed inside that loop, so no iteration pushes an element that already has a parent; (INV-ruby) in the WebVTT cue parser the cursor is a Ruby only while both ruby containers are set; (NONZERO) frame and tick rates reaching the time-expression parser are positive;'
   ' (RAISE-interval) the cue serialisers refuse end <= begin, so add_isd passes an interval on only after a test on the rounded end and begin has excluded an interval that is empty at millisecond resolution (an interval shorter than the time-code resolution is skipped, never an exception);'
   ' (EXC-fallback) in every attribute extractor that reads one raw value, each path on which an error is logged returns what the extractor returns for an absent attribute: a malformed value is ignored, it never turns into another value;'
+  " (PAIR-default-end) where the merging filters are not applied unconditionally the writer's finish() gives the default end to every cue that has none, not to the last list entry only;"
 )
 RULE_TEXT = "per function / class / dereference / extraction site / raise statement"
 UNDECIDED = ["termination", "RecursionError (input-depth recursion exists in from_xml, dfs_iterator, _process_element)", "TypeError / AssertionError guarded by data-dependent invariants",
@@ -293,4 +294,6 @@ def run(ctx):
   nfb = fallback.check_error_fallbacks(ctx, common.funcs(ctx, ["ttconv.imsc.attributes"]), exempt={
     "ttconv.imsc.attributes:ExtentAttribute.extract": "non-integer pixel dimensions are reported and then truncated: the value is used, not ignored (lenient by design, one message)"})
   ctx.floor("EXC-fallback", "attribute extractors with an error path", nfb, 6)
+  for q_ in ("ttconv.srt.writer:SrtContext", "ttconv.vtt.writer:VttContext"):
+    shape.check_default_end(ctx, ctx.ix.cls(q_))
   common.check_history_independence(ctx, MODS)
